@@ -28,17 +28,17 @@ fn pin_menu() -> Vec<Pin> {
         Pin::new(PinKind::In, "N").bits("x"),
         // labels spelled like the attribute keys the loader looks up
         Pin::new(PinKind::In, "Bits").bits("3"),
-        Pin::new(PinKind::In, "InDefault").default(digxml::Default::Value(7)),
+        Pin::new(PinKind::In, "InDefault").default(digxml::Default::Value(-7)),
         Pin::new(PinKind::Out, "Label").bits("2"),
         // an input pin whose own label ends in _out
-        Pin::new(PinKind::In, "B_out").bits("4").default(digxml::Default::Value(2)),
+        Pin::new(PinKind::In, "B_out").bits("4").default(digxml::Default::Value(i64::MIN)),
         // a label with a no-break space inside (one name for the header lexer)
         Pin::new(PinKind::In, "D\u{a0}0").bits("2"),
     ]
 }
 
 fn test_menu() -> Vec<TestDesc> {
-    let t = |l: Option<&str>, s: &str| TestDesc { label: l.map(|x| x.to_string()), source: s.to_string() };
+    let t = |l: Option<&str>, s: &str| TestDesc { label: l.map(|x| x.to_string()), source: s.to_string(), extra: vec![] };
     vec![
         t(Some("t"), "A Q\n0 1\n"),
         t(Some("u"), "A Q\n1 0\n(1<2) (3>2)\n"),
@@ -56,6 +56,9 @@ fn test_menu() -> Vec<TestDesc> {
         t(Some("hdr"), "A Q"),
         t(Some("Label"), "Bits InDefault Label\n1 2 3\n"),
         t(Some("nbsp"), "D\u{a0}0\u{2003}x A\n1 0\n"),
+        // further attribute entries, as Digital writes them: every Testcase element is a test
+        TestDesc { label: Some("off".into()), source: "A B_out\n1 0\n".into(), extra: vec![("enabled", "<boolean>false</boolean>")] },
+        TestDesc { label: Some("T".into()), source: "A Q\n1 1\n".into(), extra: vec![("enabled", "<boolean>true</boolean>"), ("Description", "<string>Label</string>"), ("rotation", "<rotation rotation=\"1\"/>")] },
     ]
 }
 
@@ -221,6 +224,40 @@ fn check_doc(pins: &[Pin], tests: &[TestDesc], st: &mut Stats) -> Option<(String
                 Ok((a, b, c)) if a == "index out of bounds" && b == "index out of bounds" && c == "test not found" => {}
                 other => return Some(("out-of-range index / unknown name".into(), format!("load_test({n}), load_test({}), load_test_by_name(unknown) gave {other:?}", n + 7))),
             }
+            // names that are nearly labels (other letter case, blank space around, a prefix, an extension):
+            // a name selects the first test whose label is exactly that name, and nothing else
+            let labels: Vec<Option<String>> = tests.iter().map(|t| t.label.clone()).collect();
+            let mut near: Vec<String> = vec!["  ".into(), "\t".into(), "T".into(), "t ".into()];
+            for l in labels.iter().flatten() {
+                near.extend([l.to_uppercase(), l.to_lowercase(), format!(" {l}"), format!("{l} "), format!("\t{l}\n"), format!("{l}x"), l.chars().skip(1).collect()]);
+            }
+            near.sort();
+            near.dedup();
+            for name in near {
+                let want = labels.iter().position(|l| l.as_deref() == Some(name.as_str()));
+                let f5 = f.clone();
+                let nm = name.clone();
+                let got = guard(DEFAULT_BUDGET, move || (f5.load_test_by_name(&nm), want.map(|i| f5.load_test(i))));
+                st.witness("lookup_by_a_name_that_is_nearly_a_label");
+                match got {
+                    Err(c) => return Some(("load_test_by_name panics".into(), format!("{c:?}"))),
+                    Ok((x, None)) => {
+                        if load_class(&x) != "test not found" {
+                            return Some(("unknown name is not an error".into(), format!("no test is labelled {name:?} (labels: {labels:?}) but load_test_by_name gives {}", load_class(&x))));
+                        }
+                    }
+                    Ok((x, Some(y))) => {
+                        let same = match (&x, &y) {
+                            (Ok(x), Ok(y)) => x == y,
+                            (Err(_), Err(_)) => load_class(&x) == load_class(&y),
+                            _ => false,
+                        };
+                        if !same {
+                            return Some(("load_test_by_name does not select the first test with that label".into(), format!("name {name:?}: by name {}, by index {}", load_class(&x), load_class(&y))));
+                        }
+                    }
+                }
+            }
             None
         }
     }
@@ -237,7 +274,7 @@ fn base_documents() -> Vec<(String, String)> {
     let tm = test_menu();
     v.push(("generated: A B CLK Q R, tests t u".into(), digxml::render(&[pm[0].clone(), pm[1].clone(), pm[3].clone(), pm[5].clone(), pm[6].clone()], &[tm[0].clone(), tm[1].clone()])));
     let umlaut = vec![Pin::new(PinKind::In, "Zähler").bits("4"), Pin::new(PinKind::Out, "Übertrag"), Pin::new(PinKind::In, "€")];
-    let t = TestDesc { label: Some("prüfe €".into()), source: "Zähler Übertrag\n1 0 # größer\n".into() };
+    let t = TestDesc { label: Some("prüfe €".into()), source: "Zähler Übertrag\n1 0 # größer\n".into(), extra: vec![] };
     let doc = digxml::render(&umlaut, &[t]);
     v.push(("generated: non-ASCII labels, LF".into(), doc.clone()));
     v.push(("generated: non-ASCII labels, CRLF".into(), doc.replace('\n', "\r\n")));
@@ -284,7 +321,7 @@ pub fn run(tier: Tier, seed: u64) -> i32 {
                 _ => Pin::new(PinKind::In, &format!("Z{i}")).default(digxml::Default::Z),
             });
         }
-        let tests: Vec<TestDesc> = (0..40).map(|t| TestDesc { label: Some(format!("test {}", t % 37)), source: format!("I{} I{}_out O{} K{}\n{} X 1 C\n", t * 4, t * 4, t * 4 + 1, t * 4 + 2, t) }).collect();
+        let tests: Vec<TestDesc> = (0..40).map(|t| TestDesc { label: Some(format!("test {}", t % 37)), source: format!("I{} I{}_out O{} K{}\n{} X 1 C\n", t * 4, t * 4, t * 4 + 1, t * 4 + 2, t), extra: vec![] }).collect();
         total.evals += 1;
         total.nontrivial += 1;
         total.witness("document_with_300_pins_and_40_tests");
@@ -378,7 +415,7 @@ pub fn run(tier: Tier, seed: u64) -> i32 {
             "the name given to a Testcase without Label entry is not specified".into(),
             "dig::File::open (file system) is not explored; parse is".into(),
         ],
-        required_witnesses: vec!["document_with_300_pins_and_40_tests", "loadable_document", "unloadable_document_rejected", "bidirectional_signal_recovered", "load_test_ok", "load_test_err_same_class", "duplicate_test_label", "corrupted_document_still_loads", "corrupted_document_rejected"],
+        required_witnesses: vec!["document_with_300_pins_and_40_tests", "loadable_document", "unloadable_document_rejected", "bidirectional_signal_recovered", "load_test_ok", "load_test_err_same_class", "duplicate_test_label", "corrupted_document_still_loads", "corrupted_document_rejected", "lookup_by_a_name_that_is_nearly_a_label"],
         exhaustive_note: "all menu sequences within the bounds; all listed corruptions".into(),
         e1: false,
     };
